@@ -29,6 +29,7 @@ import (
 	"strconv"
 	"strings"
 	"sync"
+	"syscall"
 	"time"
 
 	"verif/harness/internal/core"
@@ -40,21 +41,36 @@ func init() {
 	core.Register(&core.Check{
 		ID:    prop,
 		Level: "exploration",
-		Rule: "document entry points: baseline + every non-conflicting combination of <=2 (quick) / <=3 (thorough; triples over the 'core' deviations) atomic deviations " +
-			"(null, wrong scalar type, list<->map, empty, missing, duplicate key, null list element, long, deep nesting, non-UTF-8, field-specific shapes), plus truncation at every byte of every small document; " +
-			"string entry points: every string up to length 5 (quick) / 6 (thorough) over {a . = , [ ] { } \\ 0 -} for all strvals parsers x 7 pre-populated destinations, and up to length 4/5 over a glob alphabet for .helmignore. " +
-			"distinct = (entry point, deviation id set) or (entry point, input string); every case differs from every other in its input bytes; non-trivial = differs from the baseline by at least one deviation or is a non-empty string",
+		Rule: "document entry points (chart dir/archive/memory -> CheckDependencies -> ProcessDependencies -> ToRenderValues -> Render -> SortManifests, and lint; chart archive bytes; values file + --set flags; repository index + Get/Merge/search; " +
+			"manifest stream; Secrets/ConfigMaps records + pkg/storage; provenance file + keyring; plugin.yaml): a valid baseline, every single atomic deviation of the table " +
+			"(per field: null, wrong scalar type, list<->map, empty, missing, duplicate key, null list element, 10^4 characters, nesting 10^3, non-UTF-8, control characters, plus field-specific shapes), " +
+			"truncation of every small document at every byte, and every non-conflicting pair of the tier's pair set (quick: the deviations that survive loading; thorough: a larger set, all deviations for the small tables) " +
+			"and, thorough only, every triple of the chart deviations that meet in dependency processing and value computation; " +
+			"string entry points: every string up to length 5 (quick) / 6 (thorough) over {a . = , [ ] { } \\ 0 -} plus index/nesting-limit variants for 43 strvals call variants (all parsers x 7 pre-populated destinations x 3 file readers), " +
+			"and up to length 4/5 over {a * ? / ! [ ] \\ - # LF SP .} for .helmignore parsing + matching. " +
+			"distinct = (entry point, deviation id set) or (entry point, input string): two distinct cases differ in their input bytes; non-trivial = every case but the empty string " +
+			"(the baselines are required to pass every stage, so any other outcome is caused by the deviations). Supersets of a case that already kills the process are counted as pruned, not run",
 		Run:            run,
 		Replay:         replay,
 		CrashViolation: crashViolation,
+		// generous worker watchdogs: on an idle machine the quick tier needs about
+		// a minute; on a heavily shared one it must still finish rather than be cut
+		WorkerTimeoutS: func(tier string) int {
+			if tier == "thorough" {
+				return 4 * 3600
+			}
+			return 3600
+		},
 		Assumptions: []string{
-			"panics are observed in-process under recover (the first helm frame of the panicking stack is recorded); fatal runtime errors (stack overflow, concurrent map write) kill the worker and are attributed through the case mark",
-			"a stage that does not return within 10 s is a hang; cases normally take < 10 ms",
-			"resource exhaustion by legitimately huge inputs (memory bombs such as `repeat 1e9`) is not generated: the statement names panic, unbounded recursion and hang",
+			"every case runs in an expendable child process (case server); each stage is announced before it runs, so a fatal runtime error or a kill is attributed to the exact stage and the exploration continues",
+			"panic = recovered in the child (the innermost Helm function of the panicking stack names the class); no-return = the child died of a fatal runtime error (stack overflow) or burned 10 s of CPU time in one stage (normal stages take < 0.1 s) and was killed",
+			"exploration children run with a 128 MB stack limit so that unbounded recursion is reached in seconds; every new violation is confirmed 5x by the runner in children with the Go default of 1 GB (40 s CPU / 90 s wall watchdog), so a recursion that is merely deep does not count",
+			"resource exhaustion by legitimately huge results (e.g. `repeat 1000000000`, chained `quote`) is not generated: the statement names panic, unbounded recursion and hang",
 			"Kubernetes storage backends run over client-go's fake clientset; the SQL backend needs a database and is not covered; the Memory backend stores objects, not encoded records, so it has no corruptible body",
 			"network getters are not reachable offline: value files and indexes are read from local paths",
-			"provenance verification uses Helm's own test keypair (copied to checks/c20/testdata)",
-			"caller-supplied callbacks (the filter passed to driver.List) are trivial; pkg/storage.Storage's own filters are part of Helm and are exercised",
+			"provenance cases are signed with Helm's own test keypair (copied to checks/c20/testdata) with a fixed signature time, so that deviated message blocks carry a valid signature",
+			"the filter passed to driver.List is the trivial one; pkg/storage.Storage's own filters and sorters are part of Helm and are exercised",
+			"IndexFile.Merge is exercised in the direction Helm uses it (a generated index merges the loaded one)",
 		},
 		RequiredFloors: requiredFloors(),
 	})
@@ -67,7 +83,8 @@ type res struct {
 	Stage  string `json:"stage"`
 	Kind   string `json:"kind"` // ok | error | panic | hang | lost
 	Detail string `json:"detail,omitempty"`
-	Site   string `json:"site,omitempty"` // first helm function on the panicking stack
+	Site   string `json:"site,omitempty"` // first helm function on the panicking stack (panic) / fatal error kind (fatal)
+	PClass string `json:"pclass,omitempty"` // class of the panic value (nil-deref, type-assertion, ...)
 }
 
 func (r res) bad() bool { return r.Kind != "ok" && r.Kind != "error" }
@@ -80,6 +97,7 @@ func call(stage string, fn func() error) (r res) {
 			site, loc := panicSite()
 			r.Kind = "panic"
 			r.Site = site
+			r.PClass = panicClass(fmt.Sprint(p))
 			r.Detail = fmt.Sprintf("panic: %v at %s", p, loc)
 			if len(r.Detail) > 400 {
 				r.Detail = r.Detail[:400] + "..."
@@ -93,6 +111,24 @@ func call(stage string, fn func() error) (r res) {
 	}
 	r.Kind = "ok"
 	return r
+}
+
+func panicClass(msg string) string {
+	switch {
+	case strings.Contains(msg, "nil pointer dereference"):
+		return "nil-deref"
+	case strings.Contains(msg, "interface conversion"):
+		return "type-assertion"
+	case strings.Contains(msg, "index out of range"), strings.Contains(msg, "slice bounds out of range"):
+		return "index-out-of-range"
+	case strings.Contains(msg, "assignment to entry in nil map"):
+		return "nil-map-write"
+	case strings.Contains(msg, "divide by zero"):
+		return "divide-by-zero"
+	case strings.Contains(msg, "makeslice"), strings.Contains(msg, "out of memory"):
+		return "allocation"
+	}
+	return "other"
 }
 
 func firstLine(s string, n int) string {
@@ -117,8 +153,7 @@ func panicSite() (site, loc string) {
 	for {
 		f, more := frames.Next()
 		if strings.HasPrefix(f.Function, helmMod) {
-			fn := strings.TrimPrefix(f.Function, helmMod)
-			return fn, fmt.Sprintf("%s:%d", trimRepo(f.File), f.Line)
+			return trimRepo(f.File) + ":" + plainFunc(f.Function), fmt.Sprintf("%s:%d", trimRepo(f.File), f.Line)
 		}
 		if firstOther == "" && f.Function != "" && !strings.HasPrefix(f.Function, "runtime.") && !strings.HasPrefix(f.Function, "verif/") {
 			firstOther, firstLoc = f.Function, fmt.Sprintf("%s:%d", f.File, f.Line)
@@ -130,6 +165,31 @@ func panicSite() (site, loc string) {
 	return firstOther, firstLoc
 }
 
+// plainFunc reduces a runtime function name to the innermost named function:
+// closure counters, inlining decorations and receivers are dropped, so that
+// the name does not depend on compiler decisions
+// ("storage.(*Storage).ListDeployed.func1.StatusFilter.1" -> "StatusFilter").
+func plainFunc(fn string) string {
+	if i := strings.LastIndexByte(fn, '/'); i >= 0 {
+		fn = fn[i+1:]
+	}
+	parts := strings.Split(fn, ".")
+	last := ""
+	for i, p := range parts {
+		if i == 0 { // package name
+			continue
+		}
+		if p == "" || strings.HasPrefix(p, "func") || strings.HasPrefix(p, "(") || strings.HasPrefix(p, "gowrap") || (p[0] >= '0' && p[0] <= '9') {
+			continue
+		}
+		last = p
+	}
+	if last == "" {
+		return fn
+	}
+	return last
+}
+
 func trimRepo(p string) string {
 	if i := strings.Index(p, "/pkg/"); i >= 0 {
 		return p[i+1:]
@@ -137,66 +197,31 @@ func trimRepo(p string) string {
 	return p
 }
 
-// guard executes stages. In-process mode (replay): closures run on a helper
-// goroutine so that a stage that never returns can be abandoned and reported.
-// Emit mode (case server child process): the stage is announced on the
-// protocol stream before it runs, so that the driver can attribute a fatal
-// runtime error or a hang (it kills the child) to the exact stage.
+// guard executes stages. In the case server (emit mode) every stage is
+// announced on the protocol stream before it runs, so that the driver can
+// attribute a fatal runtime error or a hang (it kills the child) to the exact
+// stage. Without emit (unit tests) stages are simply called.
 type guard struct {
-	req     chan func() res
-	resp    chan res
-	timeout time.Duration
-	timer   *time.Timer
-	hung    int
-	emit    *bufio.Writer
+	emit *bufio.Writer
 }
 
-func newGuard(timeout time.Duration) *guard {
-	g := &guard{timeout: timeout}
-	g.spawn()
-	return g
-}
+func newGuard() *guard { return &guard{} }
 
-func (g *guard) spawn() {
-	req, resp := make(chan func() res), make(chan res, 1)
-	g.req, g.resp = req, resp
-	go func() {
-		for fn := range req {
-			resp <- fn()
-		}
-	}()
-}
-
-// do runs fn (which must do its own recover via call) with the hang watchdog.
 func (g *guard) do(stage string, fn func() res) res {
-	if g.emit != nil {
-		g.emit.WriteString("S " + stage + "\n")
-		g.emit.Flush()
-		r := fn()
-		b, _ := json.Marshal(r)
-		g.emit.WriteString("R ")
-		g.emit.Write(b)
-		g.emit.WriteString("\n")
-		return r
+	if g.emit == nil {
+		return fn()
 	}
-	g.req <- fn
-	if g.timer == nil {
-		g.timer = time.NewTimer(g.timeout)
-	} else {
-		g.timer.Reset(g.timeout)
-	}
-	select {
-	case r := <-g.resp:
-		g.timer.Stop()
-		return r
-	case <-g.timer.C:
-		g.hung++
-		g.spawn() // the old goroutine is abandoned
-		return res{Stage: stage, Kind: "hang", Detail: fmt.Sprintf("no return within %v", g.timeout)}
-	}
+	g.emit.WriteString("S " + stage + "\n")
+	g.emit.Flush()
+	r := fn()
+	b, _ := json.Marshal(r)
+	g.emit.WriteString("R ")
+	g.emit.Write(b)
+	g.emit.WriteString("\n")
+	return r
 }
 
-// run = call under the watchdog.
+// run = call, announced.
 func (g *guard) run(stage string, fn func() error) res {
 	return g.do(stage, func() res { return call(stage, fn) })
 }
@@ -204,7 +229,6 @@ func (g *guard) run(stage string, fn func() error) res {
 // ---------------------------------------------------------------------------
 // per-process environment
 
-const stageTimeout = 15 * time.Second
 
 type env struct {
 	c       *core.Ctx
@@ -225,9 +249,9 @@ func (e *env) overBudget() bool {
 	if e.capped {
 		return true
 	}
-	budget := 700 * time.Second
+	budget := 50 * time.Minute
 	if e.c.Thorough() {
-		budget = 150 * time.Minute
+		budget = 220 * time.Minute
 	}
 	if time.Since(e.start) > budget {
 		e.capped = true
@@ -244,7 +268,7 @@ type badSet struct {
 }
 
 func newEnv(c *core.Ctx) *env {
-	e := &env{c: c, g: newGuard(stageTimeout), known: map[string][]badSet{}, start: time.Now()}
+	e := &env{c: c, g: newGuard(), known: map[string][]badSet{}, start: time.Now()}
 	if d := os.Getenv("C20_SCRATCH"); d != "" {
 		if os.MkdirAll(d, 0o755) == nil {
 			e.scratch = d
@@ -302,6 +326,8 @@ type request struct {
 	Devs  []string `json:"devs,omitempty"`
 	From  int64    `json:"from,omitempty"` // string entry points: index range [From,To)
 	To    int64    `json:"to,omitempty"`
+	// Literal: string entry points, one literal input (replay)
+	Literal *string `json:"literal,omitempty"`
 }
 
 type entryPoint interface {
@@ -352,11 +378,20 @@ func run(c *core.Ctx) {
 		if c.Only != "" && c.Only != ep.Name() {
 			continue
 		}
-		t0 := time.Now()
+		t0, c0, s0 := time.Now(), e.remote.cpu(), selfCPU()
 		ep.Explore(e)
-		c.Count("ms_"+ep.Name(), time.Since(t0).Milliseconds())
+		c.Count("wall_ms_"+ep.Name(), time.Since(t0).Milliseconds())
+		c.Count("cpu_ms_"+ep.Name(), (e.remote.cpu() - c0 + selfCPU() - s0).Milliseconds())
 	}
 	c.Count("case_server_starts", int64(e.remote.starts))
+}
+
+func selfCPU() time.Duration {
+	var ru syscall.Rusage
+	if syscall.Getrusage(syscall.RUSAGE_SELF, &ru) != nil {
+		return 0
+	}
+	return time.Duration(ru.Utime.Nano() + ru.Stime.Nano())
 }
 
 func replay(c *core.Ctx, data json.RawMessage) []core.Violation {
@@ -369,6 +404,12 @@ func replay(c *core.Ctx, data json.RawMessage) []core.Violation {
 	}
 	e := newEnv(c)
 	defer e.close()
+	// confirmation runs use the runtime's default stack limit (1 GB) and a
+	// long watchdog: only a child that really dies / never returns counts.
+	e.remote = newRemote(e)
+	e.remote.maxMB = 0
+	e.remote.cpuMax = 40 * time.Second
+	e.remote.wallMax = 90 * time.Second
 	if ep := findEntry(rd.Entry); ep != nil {
 		c.Mark(mustJSON(rd))
 		return ep.RunOne(e, rd)
@@ -401,7 +442,11 @@ func serve(c *core.Ctx) {
 			continue
 		}
 		if ep := findEntry(req.Entry); ep != nil {
-			ep.Serve(e, req)
+			if se, ok := ep.(*strEntry); ok && req.Literal != nil {
+				se.ServeLiteral(e, *req.Literal)
+			} else {
+				ep.Serve(e, req)
+			}
 		} else {
 			proto.WriteString("E unknown entry\n")
 		}
